@@ -366,7 +366,9 @@ func mapSameSizeIter(wide bool, del bool) {
 	}
 	mapiterinit(t, h, &it)
 	steps := 0
-	step := func(deleted uint64) {
+	// one loop iteration = consume (the loop variables are assigned from the iterator's
+	// current entry), the loop body, advance (mapiternext) - as the compiler emits it
+	consume := func(deleted uint64) {
 		k := *(*uint64)(it.key)
 		v := *(*uint64)(it.elem)
 		i := g.find(k)
@@ -375,6 +377,8 @@ func mapSameSizeIter(wide bool, del bool) {
 		if i >= 0 {
 			seen[i]++
 		}
+	}
+	advance := func() {
 		mapiternext(&it)
 		steps++
 	}
@@ -385,49 +389,55 @@ func mapSameSizeIter(wide bool, del bool) {
 		pre = pick("pre", 0, 1) * 2
 	}
 	for it.key != nil && uint64(steps) < pre {
-		step(0)
+		consume(0)
+		advance()
 	}
-	// loop body, first write: a new key, which starts the same-size grow
-	forceSameSizeGrow(h)
-	var k1 uint64
-	if wide {
-		k1 = pick("k1", 17, 20)
-	} else {
-		k1 = 17 + 2*pick("k1", 0, 1) // bucket 1 or 3
-	}
-	mput(t, h, k1, 1)
-	g.put(k1, 1)
-	nd_assume(h.growing() && h.sameSizeGrow())
+	var k1, k2, deleted uint64
 	if it.key != nil {
-		step(0)
+		consume(0)
+		// loop body, first write: a new key, which starts the same-size grow
+		forceSameSizeGrow(h)
+		if wide {
+			k1 = pick("k1", 17, 20)
+		} else {
+			k1 = 17 + 2*pick("k1", 0, 1) // bucket 1 or 3
+		}
+		mput(t, h, k1, 1)
+		g.put(k1, 1)
+		nd_assume(h.growing() && h.sameSizeGrow())
+		advance()
 	}
-	// second write: update or delete of an old key (evacuates its bucket)
-	var deleted uint64
-	var k2 uint64
-	if wide {
-		k2 = pick("k2", 1, 4)
-	} else {
-		k2 = 1 + 2*pick("k2", 0, 1)
-	}
-	if del {
-		mdel(t, h, k2)
-		g.del(k2)
-		deleted = k2
-	} else {
-		mput(t, h, k2, 2)
-		g.put(k2, 2)
+	if it.key != nil {
+		consume(0)
+		// loop body, second write: update or delete of an old key (evacuates its bucket);
+		// it may be the entry just produced - that one has been seen already
+		if wide {
+			k2 = pick("k2", 1, 4)
+		} else {
+			k2 = 1 + 2*pick("k2", 0, 1)
+		}
+		if del {
+			mdel(t, h, k2)
+			g.del(k2)
+			deleted = k2
+		} else {
+			mput(t, h, k2, 2)
+			g.put(k2, 2)
+		}
+		advance()
 	}
 	for it.key != nil && steps < 40 {
-		step(deleted)
+		consume(deleted)
+		advance()
 	}
 	ok := true
 	for i := 0; i < g.n; i++ {
 		switch {
-		case g.k[i] == k1 || g.k[i] == deleted:
+		case (k1 != 0 && g.k[i] == k1) || (deleted != 0 && g.k[i] == deleted):
 			if seen[i] > 1 {
 				ok = false
 			}
-		case g.k[i] == k2 && !del:
+		case k2 != 0 && g.k[i] == k2 && !del:
 			// updated during the loop: produced once, with the old or the new value
 			if seen[i] != 1 {
 				ok = false
